@@ -13,9 +13,11 @@ mod run;
 use std::io::{BufRead, BufWriter, Write};
 
 fn main() {
-    // silence the default panic message: panics are caught per request and reported
-    std::panic::set_hook(Box::new(|_| {}));
     let args: Vec<String> = std::env::args().collect();
+    if args.get(1).map(String::as_str) != Some("gen") {
+        // silence the default panic message: panics are caught per request and reported
+        std::panic::set_hook(Box::new(|_| {}));
+    }
     match args.get(1).map(String::as_str) {
         Some("gen") => {
             let prop = &args[2];
